@@ -64,6 +64,7 @@ package bastion
 //@   invariant#1 wellFormed ==> (forall j int :: 0 <= j && j < len(proof) ==> str(proof[j]) == str(G_row()[G_off() + j]))
 //@   invariant#1[C11.w] oldLineOK(lineOf(input)) && hasLine(input)
 //@   invariant#1 rd_err[b] == old(rd_err[refOf(r)])
+//@   decreases#1 len(rd_buf[b])
 
 //@ func (*addHandler).ServeHTTP
 //@   let allowed  := allow_ok
